@@ -11,7 +11,8 @@ type written in place), so the registered attribute kind has to be looked at onc
                             narrower bounds, UNIQUE, not OPTIONAL);  further subtypes re-declare an attribute of a
                             grand-supertype, re-declare a re-declaration, re-declare several attributes, change only
                             OPTIONAL, and re-declare below a second supertype.
-  kind_matrix('derived')    the same supertype, the subtypes re-declare in the DERIVE clause.
+  kind_matrix('derived')    the same supertype, the subtypes re-declare in the DERIVE clause; one more subtype declares a NEW
+                            derived attribute of every kind of type and inverse attributes (entity / SET / BAG).
 
 The explicit matrix contains the masked feature 'explicit_redeclaration' (open finding: the attribute LIST of an instance
 of such a subtype differs) and is therefore a fixed probe, not part of the randomized workload; the derived matrix is an
@@ -100,6 +101,14 @@ def kind_matrix(clause, name):
         redecl(e, 'h', k, kd[k][3], kd[k][4], kd[k][5])
     e.attrs.append(Attr('t0', INT(), True))
     s.entities.append(e)
+    if clause == 'derived':
+        # NEW derived attributes (no re-declaration) of every kind of type, and inverse attributes of both forms beside them
+        e = Entity('newd', supers=['h'], derived=[Derived('n_' + k, t1, x) for k, _t0, _o0, t1, _o1, x in KINDS])
+        s.entities.append(e)
+        s.entities.append(Entity('user', attrs=[Attr('one', ENT('newd'), True), Attr('some', AGG('LIST', ENT('newd'), 0, None), True)]))
+        e.inverse.append(M.Inverse('used_by', 'user', 'one'))
+        e.inverse.append(M.Inverse('used_in', 'user', 'some', 'SET', 0, None))
+        e.inverse.append(M.Inverse('used_bag', 'user', 'one', 'BAG', 1, 3))
     s.tags.add('re-declaration matrix:' + clause)
     return s
 
